@@ -72,6 +72,7 @@ inline std::vector<double> candidates(TasmanianSparseGrid &g, const Op &op, Ref 
 // Applies op. Returns false when the documented preconditions do not admit the op in this state (pruned, no call made).
 inline bool apply(TasmanianSparseGrid &g, const Op &op, Ref &r, ApplyInfo *info = nullptr){
     if (g.empty()) return false;
+    if (g.getNumLoaded() + g.getNumNeeded() > 3000) return false; // the lattice is bounded by 3000 points: no transitions out of larger states (O(n^2) operations would look like hangs)
     int d = g.getNumDimensions(), outs = g.getNumOutputs(); bool constr = g.isUsingConstruction(); bool local = isLocalFam(g);
     const std::string &k = op.k;
     if (k == "load"){
